@@ -181,15 +181,21 @@ var (
 
 // c17DepsCase asks the go tool for the dependency closure of the minimal program in one build configuration.
 func c17DepsCase(dir, goarch, tags string) (key, detail string) {
+	return c17DepsCaseWith("go", dir, goarch, tags)
+}
+
+// c17DepsCaseWith is c17DepsCase with a named go command: a second, newer toolchain evaluates `//go:build go1.N`
+// constraints differently (a file guarded by a release tag could be the only importer of SHA-256).
+func c17DepsCaseWith(gocmd, dir, goarch, tags string) (key, detail string) {
 	args := []string{"list", "-deps"}
 	if tags != "" {
 		args = append(args, "-tags", tags)
 	}
 
 	args = append(args, ".")
-	cmd := exec.Command("go", args...)
+	cmd := exec.Command(gocmd, args...)
 	cmd.Dir = dir
-	cmd.Env = append(os.Environ(), "GOARCH="+goarch, "CGO_ENABLED=0")
+	cmd.Env = append(os.Environ(), "GOARCH="+goarch, "CGO_ENABLED=0", "GOTOOLCHAIN=local")
 
 	if goarch == "wasm" {
 		cmd.Env = append(cmd.Env, "GOOS=js")
@@ -197,7 +203,7 @@ func c17DepsCase(dir, goarch, tags string) (key, detail string) {
 
 	out, err := cmd.CombinedOutput()
 	if err != nil {
-		return "tool", fmt.Sprintf("go list -deps failed for GOARCH=%s tags=%q: %v\n%s", goarch, tags, err, out)
+		return "tool", fmt.Sprintf("%s list -deps failed for GOARCH=%s tags=%q: %v\n%s", gocmd, goarch, tags, err, out)
 	}
 
 	for _, l := range strings.Split(string(out), "\n") {
@@ -206,7 +212,7 @@ func c17DepsCase(dir, goarch, tags string) (key, detail string) {
 		}
 	}
 
-	return "library-does-not-link-SHA-256-in-some-build-configuration", fmt.Sprintf("GOARCH=%s tags=%q: crypto/sha256 is not in the dependency closure of a program that imports only the package", goarch, tags)
+	return "library-does-not-link-SHA-256-in-some-build-configuration", fmt.Sprintf("%s GOARCH=%s tags=%q: crypto/sha256 is not in the dependency closure of a program that imports only the package", gocmd, goarch, tags)
 }
 
 // C17 builds plain binaries with different link sets and runs the three hashing functions in each.
@@ -225,7 +231,7 @@ func C17(r *ev.Report) {
 		src = "/repo"
 	}
 
-	r.Rule("plain (non-test) binaries built in an external module that requires the package through a replace directive, one per configuration of the rest of the program: link sets {}, {crypto}, {crypto/sha512}, {crypto/md5, hash/crc32}, {crypto/sha256}, and programs that register their own SHA-256 (a wrapper exposing only the hash.Hash methods) with crypto.RegisterHash before resp. after the library's initialisation; each calls HashToGroup, EncodeToGroup, HashToScalar on two inputs and must exit 0 with the oracle's bytes; additionally the dependency closure of the minimal program must contain crypto/sha256 in every build configuration of GOARCH {amd64, arm64, 386, arm, riscv64, ppc64le, s390x, mips64, wasm} x tags {none, purego, noasm, appengine}, and the minimal program is built and run with -tags purego; 3-class abstraction of 'all programs' (SHA-256 registered by nobody else / by the standard library / by the program itself), the minimal program being the worst case of the first class because registration is monotone in the link set; non-trivial = programs other than the one that imports crypto/sha256 itself")
+	r.Rule("plain (non-test) binaries built in an external module that requires the package through a replace directive, one per configuration of the rest of the program: link sets {}, {crypto}, {crypto/sha512}, {crypto/md5, hash/crc32}, {crypto/sha256}, and programs that register their own SHA-256 (a wrapper exposing only the hash.Hash methods) with crypto.RegisterHash before resp. after the library's initialisation; each calls HashToGroup, EncodeToGroup, HashToScalar on two inputs and must exit 0 with the oracle's bytes; additionally the dependency closure of the minimal program must contain crypto/sha256 in every build configuration of GOARCH {amd64, arm64, 386, arm, riscv64, ppc64le, s390x, mips64, wasm} x tags {none, purego, noasm, appengine}, the same closure under every newer Go toolchain found on PATH (go1.24..go1.26) for {amd64, 386, arm64} x {none, purego}, and the minimal program is built and run with -tags purego; 3-class abstraction of 'all programs' (SHA-256 registered by nobody else / by the standard library / by the program itself), the minimal program being the worst case of the first class because registration is monotone in the link set; non-trivial = programs other than the one that imports crypto/sha256 itself")
 	r.Bound("programs", len(c17Programs))
 	r.Bound("calls_per_program", 3*len(c17Inputs))
 
@@ -254,6 +260,32 @@ func C17(r *ev.Report) {
 
 				if key != "" {
 					r.Violation(key, detail, Case{"op": "buildconfig", "goarch": arch, "tags": tags})
+				}
+			}
+		}
+
+		// the same closure under every newer Go toolchain installed next to the default one (release-tag constraints)
+		for _, gocmd := range []string{"go1.26", "go1.25", "go1.24"} {
+			if _, err := exec.LookPath(gocmd); err != nil {
+				continue
+			}
+
+			for _, arch := range []string{"amd64", "386", "arm64"} {
+				for _, tags := range []string{"", "purego"} {
+					r.Evals.Add(1)
+					r.Transitions.Add(1)
+					r.States.Add(1)
+					r.Count("build_configurations_newer_toolchain", 1)
+
+					key, detail := c17DepsCaseWith(gocmd, cfgDir, arch, tags)
+					if key == "tool" {
+						r.Note("%s", detail)
+						continue
+					}
+
+					if key != "" {
+						r.Violation(key, detail, Case{"op": "buildconfig", "goarch": arch, "tags": tags, "go": gocmd})
+					}
 				}
 			}
 		}
@@ -333,7 +365,12 @@ func init() {
 
 			var key, detail string
 			if c["op"] == "buildconfig" {
-				key, detail = c17DepsCase(dir, c["goarch"], c["tags"])
+				gocmd := c["go"]
+				if gocmd == "" {
+					gocmd = "go"
+				}
+
+				key, detail = c17DepsCaseWith(gocmd, dir, c["goarch"], c["tags"])
 			} else {
 				key, detail = c17TaggedRun(dir, c["tags"])
 			}
